@@ -145,6 +145,8 @@ def jobs(tier):
     pairs = [(8, 3), (9, 4)] if tier == 'quick' else [(8, 3), (9, 4), (10, 5), (11, 4)]
     for n1, n2 in pairs:
         js.append({'name': 'pair:%d,%d' % (n1, n2), 'harness': (H, 'h_pair'), 'params': {'n1': n1, 'n2': n2}, 'split': 16})
+    from . import project
+    js += project.jobs('C15', tier)
     return js
 
 
